@@ -4,7 +4,7 @@ CONSTANTS
   Slots = {"A", "B"}
   Keys = {"a1", "b1"}
   SlotOf <- MCSlotOf2
-  MaxCmds = 3
+  MaxCmds = 2
   MaxHops = 3
   WithMigration = FALSE
   EmptyTableAtStart = FALSE
@@ -22,6 +22,10 @@ CONSTANTS
   MaxMigs = 1
   StaleTableAtStart = FALSE
   MaxFollowed = 0
+  DeathKinds = {"refused", "timeout"}
+  RefreshOnTimeout = TRUE
+  PromotedFlags = {{"master"}, {"master", "nofailover"}, {"myself", "master"}}
+  ParserSkips = {}
 INVARIANTS EqualsReference EffectOnce SingleCopy CopyIsReference NoLostKey ErrorsOnlyWhileStale
 PROPERTIES ConvergesAfterDialError
 CHECK_DEADLOCK FALSE
